@@ -971,6 +971,9 @@ static void ExpandMacro(PMacroRec OneMacro) {
 static void ExpandEXITM(void) {
     WasMACRO = True;
 
+    if (!IfAsm) {
+        return;
+    }
     if (!ChkArgCnt(0, 0))
         ;
     else if (!FirstInputTag) {
@@ -992,6 +995,9 @@ static void ExpandSHIFT(void) {
 
     WasMACRO = True;
 
+    if (!IfAsm) {
+        return;
+    }
     if (!ChkArgCnt(0, 0))
         ;
     else if (!FirstInputTag) {
